@@ -373,6 +373,7 @@ PROPS["C16"] = dict(
     assumptions=COMMON_ASSUMPTIONS + ["hook H1 (cfg sourcemap_verif): three yield points in SourceView::get_line calling a thread-local callback; add-only, no-op without a callback"],
 )
 HOOK_COMMITS.append("59fd72d")
+HOOK_COMMITS.append("cd1eed8")   # fourth yield point, inside the indexing loop
 
 def _corrupt_c13(e):
     o = e["out"]
